@@ -34,10 +34,14 @@ var goType = map[string]string{
 
 // genericPkg: one package of the kinds whose bytes come from the (C06-checked) writers: every
 // token of LookupPackage takes part in the fragmentation runs.
+var genericNames = []string{"ERROR", "DYNAMIC", "DYNAMIC2", "CURINFO", "CURINFO3", "CURDECLARE", "CURDECLARE3", "CUROPEN", "CURFETCH",
+	"CURUPDATE", "CURDELETE", "LANGUAGE", "MSG", "RETURNSTATUS"}
+
 func genericPkg(rng *rand.Rand) (wPkg, bool) {
-	names := []string{"ERROR", "DYNAMIC", "DYNAMIC2", "CURINFO", "CURINFO3", "CURDECLARE", "CURDECLARE3", "CUROPEN", "CURFETCH",
-		"CURUPDATE", "CURDELETE", "LANGUAGE", "MSG", "RETURNSTATUS"}
-	want := names[rng.Intn(len(names))]
+	return genericPkgOf(rng, genericNames[rng.Intn(len(genericNames))])
+}
+
+func genericPkgOf(rng *rand.Rand, want string) (wPkg, bool) {
 	for _, k := range wkinds {
 		if k.kind != want {
 			continue
@@ -765,6 +769,7 @@ func rxMain(args []string) error {
 	nrounds := fs.Int("rounds", 0, "multi-round scenarios")
 	nuntil := fs.Int("until", 0, "multi-round scenarios consumed with NextPackageUntil")
 	untilScn := fs.String("untilscn", "", "consumer behaviours generated by TLC from Until.tla")
+	nkinds := fs.Int("kinds", 0, "per package kind: this many one-package responses, every 1-cut each")
 	nfail := fs.Int("fail", 0, "responses for the transport-failure driver (every byte offset)")
 	failTimeout := fs.Int("failtimeout", 0, "PacketReadTimeout (s) for the failure driver")
 	failStep := fs.Int("failstep", 1, "failure driver: only every n-th offset (plus the first and last)")
@@ -913,6 +918,56 @@ func rxMain(args []string) error {
 		for _, cs := range sets {
 			if err := r.runDirect(1, resp, cs, "frag", true, 2, 1); err != nil {
 				return err
+			}
+		}
+	}
+
+	// every package kind on its own (with what it needs in front of it), cut at every offset: a
+	// boundary at each of its internal read points
+	for i := 0; i < *nkinds; i++ {
+		var shapes [][]wPkg
+		for _, name := range genericNames {
+			if g, ok := genericPkgOf(rng, name); ok {
+				shapes = append(shapes, []wPkg{g})
+			}
+		}
+		shapes = append(shapes, []wPkg{randEED(rng, false)}, []wPkg{randEED(rng, true), encRetStat(1)}, []wPkg{randEnv(rng, 0), encRetStat(2)},
+			[]wPkg{encLoginAck(5, [4]byte{5, 0, 0, 0}, randName(rng, 6), [4]byte{16, 0, 2, 1})},
+			[]wPkg{encCapability([]int{1, 2}, map[int][]byte{1: capMask(peerReqCaps), 2: capMask(peerResCaps)})},
+			[]wPkg{encDone(pick(rng, tokDone, tokDoneProc, tokDoneInProc), pick(rng, 0x10, 0x1, 0x11), 1, 7)})
+		{
+			cols := randCols(rng, 1+rng.Intn(3), true)
+			shapes = append(shapes, []wPkg{encFmt(rng, tokRowFmt2, cols, fmtOpts{wide: true, row: true}), encOrderBy2([]int{1}), encData(rng, tokRow, cols, 6)})
+			ncols := randCols(rng, 1+rng.Intn(3), false)
+			shapes = append(shapes, []wPkg{encFmt(rng, tokRowFmt, ncols, fmtOpts{row: true, narrowL2: true}), encOrderBy([]int{1, 2}), encData(rng, tokRow, ncols, 6)})
+			pcols := randCols(rng, 1+rng.Intn(2), i%2 == 0)
+			tok := tokParamFmt
+			if i%2 == 0 {
+				tok = tokParamFmt2
+			}
+			shapes = append(shapes, []wPkg{encFmt(rng, tok, pcols, fmtOpts{wide: i%2 == 0, narrowL2: i%2 != 0}), encData(rng, tokParams, pcols, 6)})
+		}
+		for si, ps := range shapes {
+			if r.lates >= 6 {
+				break
+			}
+			if rng.Intn(2) == 0 {
+				ps = append(ps, encDone(tokDone, 0, 0, 1))
+			}
+			resp := respBytes(ps)
+			n := len(resp)
+			if n > 400 || n < 2 {
+				continue
+			}
+			tr.Reset(map[string]interface{}{"driver": "kinds", "seed": *seed, "i": i, "shape": si})
+			r.resp(1, ps)
+			if err := r.runDirect(1, resp, nil, "ref", true, 1, 1); err != nil {
+				return err
+			}
+			for c := 1; c < n; c++ {
+				if err := r.runDirect(1, resp, []int{c}, "frag", true, 1, 1); err != nil {
+					return err
+				}
 			}
 		}
 	}
